@@ -108,6 +108,15 @@ func cmdGrpc(args []string) {
 			&R{Op: "wrap", Kids: []*R{{Op: op, Kids: []*R{{Op: "stdnew", S: []string{"plain"}}, coded(7, "denied")}}}, S: []string{"ctx"}},
 			&R{Op: "grpc", Kids: []*R{{Op: op, Kids: []*R{coded(5, "nf"), coded(9, "fp")}}}, I: []int64{14}})
 	}
+	for _, kind := range []string{"cause", "unwrap", "both", "nocmp"} {
+		corpus = append(corpus,
+			&R{Op: "uwrap", S: []string{kind, "legacy"}, Kids: []*R{coded(5, "nf")}, Strs: []string{}},
+			&R{Op: "wrap", Kids: []*R{{Op: "uwrap", S: []string{kind, "legacy"}, Kids: []*R{coded(9, "fp")}, Strs: []string{}}}, S: []string{"ctx"}})
+	}
+	// every standard code on a plain error (an interceptor may special-case "transport" codes)
+	for code := int64(1); code <= 16; code++ {
+		corpus = append(corpus, &R{Op: "hint", Kids: []*R{coded(code, "coded")}, S: []string{"h"}})
+	}
 	// long messages of multi-byte runes around every length a transport limit could cut at
 	for _, unit := range []string{"\u00e9", "\u65e5", "\U0001F600"} {
 		for pre := 0; pre < 4; pre++ {
